@@ -1,6 +1,7 @@
 package rtr
 
 import (
+	"os"
 	"fmt"
 	"testing"
 
@@ -97,6 +98,17 @@ func genPlanC14(rt *rapid.T) *RPlan {
 		p.CloseUs = rapid.IntRange(1, span+1000).Draw(rt, "close-at")
 		p.FinalLost = false
 	}
+	if rapid.IntRange(0, 11).Draw(rt, "deep-backlog") == 0 {
+		// an application that does not read at all while a long burst of indications arrives (a bus monitor run, a
+		// line scan): thousands of them are left unread - sizes around the powers of two a bound would pick - and
+		// only then the lost / busy indications and the Sends of the plan follow
+		n := rapid.SampledFrom([]int{1000, 1023, 1024, 1025, 1030, 2049, 4100, 8200}).Draw(rt, "backlog")
+		p.Net = append([]RNet{{AfterUs: 0, Kind: "ind", Tag: 500000, Repeat: n - 1}}, p.Net...)
+		p.Consumer = nil
+		if rapid.Bool().Draw(rt, "late-reader") {
+			p.Consumer = []RCon{{AfterUs: span + 20000, Kind: "read", N: 3, WithinUs: 200}}
+		}
+	}
 	return p
 }
 
@@ -117,6 +129,9 @@ func classifyC14(p *RPlan, res *RResult, rec *common.Rec) bool {
 	}
 	trimmed = ok > cp
 	rec.Class(fmt.Sprintf("senders=%d", len(p.Senders)))
+	if len(p.Net) > 0 && p.Net[0].Kind == "ind" && p.Net[0].Repeat >= 999 {
+		rec.Class("backlog of 1000..8200 unread indications before the rest of the history")
+	}
 	for name, b := range map[string]bool{"failed-transmission": failed, "lost-count!=retained": lostDiff, "window-trimmed": trimmed, "close-mid-run": p.CloseUs > 0, "group-router": p.Group} {
 		if b {
 			rec.Class(name)
@@ -213,6 +228,11 @@ func genPlanC13(rt *rapid.T) *RPlan {
 		// a first burst, then (after it has drained) a busy at idle, then a second burst released once the hold was seen
 		first := total / 2
 		add(first, 0)
+		if p.PauseUs >= 2000 && rapid.IntRange(0, 2).Draw(rt, "wait-below-pause") == 0 {
+			// the announced wait is shorter than the post-send pause: at idle no pause is running that could cover it
+			wait = rapid.IntRange(1, p.PauseUs/1000-1).Draw(rt, "short-idle-wait")
+			ctl = 1
+		}
 		p.Net = []RNet{{AfterUs: first*per/lanes + 3*p.PauseUs + 3000, Kind: "busy-idle", WaitMs: wait, Ctl: ctl}}
 		add(total-first+1, first*per/lanes+3*p.PauseUs+3500)
 	case "storm":
@@ -252,6 +272,12 @@ func TestC13(t *testing.T) {
 		res := runRouter(p)
 		rec.Landed()
 		f, inc := oracleC13(p, res)
+		if os.Getenv("VERIF_TRACE") != "" {
+			for _, l := range dump(res.Events, 400) {
+				fmt.Println(l)
+			}
+			fmt.Println("inconclusive:", inc)
+		}
 		if f != nil {
 			return f
 		}
